@@ -429,6 +429,8 @@ def run(tier, seed, t0):
     allc = list(cases(tier))
     core.check_deterministic(judge, allc[100])
     st = core.pmap(_work, core.chunks(allc, 400))
+    # the same cases under other interpreter configurations (-O, -OO, -W error, -X dev)
+    core.interpreter_modes("C07", allc[:: max(1, len(allc) // 300)], st)
     ri = reader_items(tier)
     st2 = core.pmap(reader_roundtrip, ri)
     st.merge(st2)
